@@ -29,6 +29,8 @@ R-C08f  a refresh that copied ONE operand's shape onto the output of a multi-ope
         final when the broadcast merge of all operand shapes succeeded: in `_refresh_elementwise_output_shape` every
         path from the operand-shape copy to an exit must assign the output's `.shape` again (merged shape, or the
         previous annotation), be the "already equal" exit, or be the branch where at most one operand has a shape
+R-C08h  refresh coverage of chain folds: a fold that steps through `_is_first_input_passthrough` nodes either refreshes the collected
+        nodes itself or every admitted operator is in a table whose members are re-derived (refreshing folds / propagate passes)
 R-C08g  declared element types of allocated values: `allocate_value_for_var` may replace the aval's float dtype by the
         default float only for floats *wider* than the default (float64 in single-precision mode); a test that also
         catches float16 declares FLOAT for values that are float16 at run time
@@ -623,6 +625,8 @@ def run(res: Results, idx: Index, tier: str) -> None:
     rule_f(res, idx)
     res.rule("R-C08g", "value allocation narrows only floats wider than the default float", floor=1)
     rule_g(res, idx)
+    res.rule("R-C08h", "chain folds refresh the nodes they re-route, or admit only operators whose shape is re-derived elsewhere", floor=2)
+    rule_h(res, idx)
 
     # ---- R-C08b
     n_cv = 0
@@ -651,3 +655,72 @@ def run(res: Results, idx: Index, tier: str) -> None:
                 else:
                     res.violation("R-C08b", site, key, f"`{obj}.const_value` is replaced but `{obj}.type` is not updated on every following path: the declared element type can contradict the constant's payload", fi.qualname)
     res.analysed["const_value_writes"] = n_cv
+
+
+# ---------------------------------------------------------------------------------------------- R-C08h
+def rule_h(res: Results, idx: Index) -> None:
+    """A chain fold that re-routes the first input of the nodes it stepped through changes the layout / shape of their
+    outputs.  Either the fold refreshes those nodes itself, or every operator its acceptance predicate admits must be one
+    whose annotation is re-derived elsewhere: by the refreshing folds that claim the same pattern first
+    (`_is_elementwise_node` tables) or by the late propagate passes (`UNARY_DATAFLOW_OPS`, binary element-wise table)."""
+    m = idx.module(OPT)
+    sets = _op_sets(m)
+    pred = idx.find_func(OPT, "_is_first_input_passthrough")
+    if pred is None:
+        raise AnalysisError("_is_first_input_passthrough not found")
+    accepted: Set[str] = set()
+    for x in ast.walk(pred.node):
+        if isinstance(x, ast.Compare) and len(x.ops) == 1 and isinstance(x.ops[0], ast.NotIn) and isinstance(x.comparators[0], ast.Name) and x.comparators[0].id in sets:
+            accepted |= sets[x.comparators[0].id]
+    if not accepted:
+        raise AnalysisError("_is_first_input_passthrough: acceptance table not found")
+    refreshed: Set[str] = set()
+    why = []
+    for fn, label in (("_is_elementwise_node", "refreshing folds"), ("propagate_unary_shapes_ir", "propagate_unary_shapes_ir"), ("propagate_elementwise_shapes_ir", "propagate_elementwise_shapes_ir")):
+        f = idx.find_func(OPT, fn)
+        if f is None:
+            continue
+        for x in ast.walk(f.node):
+            if isinstance(x, ast.Name) and x.id in sets:
+                refreshed |= sets[x.id]
+                why.append(f"{x.id} ({label})")
+    n = 0
+    for fi in m.funcs.values():
+        calls = [c for c in walk_no_nested(fi.node) if isinstance(c, ast.Call) and (call_name(c) or "") == "_is_first_input_passthrough"]
+        if not calls or fi is pred:
+            continue
+        du = defuse(fi.node)
+        for c in calls:
+            # the list the accepted node is appended to
+            arg = c.args[0] if c.args else None
+            if not isinstance(arg, ast.Name):
+                continue
+            lists = set()
+            p_if = None
+            for p_ in _parents(c):
+                if isinstance(p_, ast.If):
+                    p_if = p_
+                    break
+            if p_if is None:
+                continue
+            for st in p_if.body:
+                for a in ast.walk(st):
+                    if isinstance(a, ast.Call) and isinstance(a.func, ast.Attribute) and a.func.attr == "append" and isinstance(a.func.value, ast.Name) and a.args and isinstance(a.args[0], ast.Name) and a.args[0].id == arg.id:
+                        lists.add(a.func.value.id)
+            if not lists:
+                continue
+            n += 1
+            derived = set(lists) | du.forward(lists)
+            refreshes = [lp for lp in walk_no_nested(fi.node) if isinstance(lp, ast.For) and (names_in(lp.iter) & derived)
+                         and any(isinstance(x, ast.Call) and (call_name(x) or "") == "_refresh_elementwise_output_shape" for st in lp.body for x in ast.walk(st))]
+            key = f"{OPT}::{fi.qualname}::chain-refresh::{sorted(lists)[0]}"
+            site = f"{OPT}:{c.lineno}"
+            if refreshes:
+                res.ok("R-C08h", site, key, f"the fold refreshes the nodes collected in {sorted(lists)} itself", fi.qualname)
+                continue
+            uncovered = sorted(accepted - refreshed)
+            if uncovered:
+                res.violation("R-C08h", site, key, f"the chain fold steps through every operator of the passthrough table but does not refresh the collected nodes ({sorted(lists)}); {uncovered} are in none of the tables whose members get their shape re-derived ({', '.join(sorted(set(why)))}): their output keeps the pre-fold (transposed) shape", fi.qualname)
+            else:
+                res.ok("R-C08h", site, key, f"no refresh in the fold, but all {len(accepted)} admitted operators are re-derived by {', '.join(sorted(set(why)))}", fi.qualname)
+    res.analysed["passthrough_chain_folds"] = n
